@@ -62,9 +62,9 @@ def _classify_sp(k):
     if k[0] == "in" and ".attrs" in r:
         return ("managed_attr", True)
     if k[0] == "hasattr" and k[2] == "__spec_class__":
-        return ("spec", True)
+        return ("spec", True) if k[1] == ("instance",) else ("spec_of:" + "/".join(map(str, k[1])), True)
     if k[0] == "truthy" and k[1][-1] == ".__spec_class__":
-        return ("spec", True)
+        return ("spec", True) if k[1][:-1] == ("instance",) else ("spec_of:" + "/".join(map(str, k[1][:-1])), True)
     if k[0] == "uraise":
         return ("cb_raises", True)
     if k[0] == "caught":
@@ -290,7 +290,7 @@ def check(ctx, rep: Report):
             rep.nontrivial.add((meth, tuple(sorted(a.items())), out))
         dom = DOMAINS[meth]
         extra = {k for a, _ in rows for k in a} - set(dom) - {"warn_on_override", "warn_is_bool", "has_name", "has_owner"}
-        known_atoms = {x for d_ in DOMAINS.values() for x in d_}
+        known_atoms = {x for d_ in DOMAINS.values() for x in d_} | {x for x in extra if x.startswith("spec_of:")}
         dom = dom + sorted(extra & known_atoms)      # a protocol atom consulted where the statement gives it no role
         extra = extra - known_atoms
         if extra:
